@@ -36,16 +36,17 @@ structure Inv (s : State) : Prop where
   workersNodup : s.workers.Nodup
   threadsNodup : s.threads.Nodup
   thrSub : ∀ u, u ∈ s.threads → u ∈ s.workers
-  pendPc : ∀ c, s.pendBy = some c ↔ (s.pc c = .sInsert ∨ s.pc c = .mNewInsert)
+  pendPc : ∀ c, s.pendBy = some c ↔ (s.pc c = .sInsert ∨ s.pc c = .nInsert ∨ s.pc c = .mNewInsert)
   pendNone : s.pendBy = none → ph (s.pc 0) ≤ 13 → ∀ u, u ∈ s.workers → u ∈ s.threads
   pendSome : ∀ c, s.pendBy = some c → (∀ u, u ∈ s.workers → (u = s.newTh c ∨ u ∈ s.threads)) ∧ s.newTh c ∉ s.threads
                                        ∧ s.newTh c ∈ s.workers
+  pendSelf : ∀ c, s.pendBy = some c → s.newTh c ≠ c
   lenRel : ph (s.pc 0) ≤ 13 → s.workers.length = s.threads.length + (if s.pendBy.isSome then 1 else 0)
   workersLe : s.workers.length ≤ s.cfg.maxThreads
-  createRoom : ∀ u, s.pc u = .sCreate → s.threads.length < s.cfg.maxThreads
+  createRoom : ∀ u, (s.pc u = .sCreate ∨ s.pc u = .nCreate) → s.threads.length < s.cfg.maxThreads
   newIdx : ph (s.pc 0) = 0 → s.idx = s.threads.length ∧ s.idx < s.cfg.maxThreads ∧ s.cfg.isLazy = false
   eagerFull : s.cfg.isLazy = false → (s.pc 0 = .mNewRet ∨ s.pc 0 = .mIdle) → s.threads ≠ []
-  enqThreads : ∀ u, s.pc u = .sEnq → s.threads ≠ []
+  enqThreads : ∀ u, (s.pc u = .sEnq ∨ s.pc u = .nEnq) → s.threads ≠ []
   tasksThreads : s.tasks ≠ [] → s.threads ≠ []
   tasksFreed : 13 ≤ ph (s.pc 0) → s.tasks = []
   /- the worker loop -/
@@ -72,16 +73,22 @@ structure Inv (s : State) : Prop where
   heldInv : ∀ u, held (s.pc u) = true →
     (s.task (s.cur u)).accepted = true ∧ (s.task (s.cur u)).started = false ∧ (s.task (s.cur u)).discarded = false ∧
     s.cur u ∉ s.tasks ∧ (s.task (s.cur u)).runner = u
-  inTaskInv : ∀ u, s.pc u = .wInTask →
+  inTaskInv : ∀ u, inTask (s.pc u) = true →
     (s.task (s.cur u)).started = true ∧ (s.task (s.cur u)).finished = false ∧ (s.task (s.cur u)).runner = u
   execCnt : ∀ k, (s.task k).execCount = if (s.task k).started then 1 else 0
   finStarted : ∀ k, (s.task k).finished = true → (s.task k).started = true
   runningInv : ∀ k, (s.task k).started = true → (s.task k).finished = false →
-    s.pc (s.task k).runner = .wInTask ∧ s.cur (s.task k).runner = k
+    inTask (s.pc (s.task k).runner) = true ∧ s.cur (s.task k).runner = k
   pendingInv : ∀ k, (s.task k).accepted = true → (s.task k).started = false → (s.task k).discarded = false →
     k ∈ s.tasks ∨ (held (s.pc (s.task k).runner) = true ∧ s.cur (s.task k).runner = k)
   preEnqInv : ∀ u, preEnq (s.pc u) = true →
     (s.task (s.cur u)).submitted = true ∧ (s.task (s.cur u)).accepted = false ∧ (s.task (s.cur u)).subBy = u
+  nPreEnqInv : ∀ u, nPreEnq (s.pc u) = true →
+    (s.task (s.addK u)).submitted = true ∧ (s.task (s.addK u)).accepted = false ∧ (s.task (s.addK u)).subBy = u
+  /- while `m_thpool_new` has not returned nothing has been submitted: no task is queued, held or running -/
+  newQuiet : ph (s.pc 0) ≤ 1 → s.tasks = [] ∧ ∀ u, held (s.pc u) = false ∧ inTask (s.pc u) = false
+  /- the shutdown check of m_thpool_add is made with the lock held -/
+  pastChkNo : ∀ u, pastChk (s.pc u) = true → s.shutdown = .no
   accSub : ∀ k, (s.task k).accepted = true → (s.task k).submitted = true
   startAcc : ∀ k, (s.task k).started = true → (s.task k).accepted = true
   discInv : ∀ k, (s.task k).discarded = true → (s.task k).accepted = true ∧ (s.task k).started = false
@@ -92,6 +99,19 @@ structure Inv (s : State) : Prop where
   mainWait : s.pc 0 = .fWaiting → 0 ∈ s.waiters → s.alive = 0 → ∃ u, s.pc u = .wExitBcast
   /- only finitely many threads exist -/
   finSupp : ∃ N : Nat, ∀ u : Nat, N ≤ u → s.pc u = .none
+
+/-- past the shutdown check of `m_thpool_add` (lock held) the pool is not shutting down: thread 0 has not got beyond
+`fSetShut` -/
+theorem ph_of_pastChk {s : State} (hi : Inv s) (u : Tid) (hp : pastChk (s.pc u) = true) : ph (s.pc 0) ≤ 4 := by
+  have a := hi.pastChkNo u hp
+  have b := hi.shutSet
+  cases hm : s.mode <;> (apply Nat.le_of_not_lt; intro hlt; have := b (by omega); simp [hm, a] at this)
+
+/-- a task runs only after `m_thpool_new` has returned -/
+theorem ph_of_inTask {s : State} (hi : Inv s) (u : Tid) (hp : inTask (s.pc u) = true) : 2 ≤ ph (s.pc 0) := by
+  apply Nat.le_of_not_lt; intro hlt
+  have := (hi.newQuiet (by omega)).2 u
+  rw [hp] at this; cases this.2
 
 /-- case analysis on `h : step s l = some s'`: one goal per enabled transition, with `s'` replaced
 by the explicit successor state -/
